@@ -161,7 +161,7 @@ class SymSet:
 
     def __init__(self, pred, sort=None, name=None):
         self.pred = pred
-        self.sort = sort or z3.IntSort()
+        self.sort = sort if sort is not None else z3.IntSort()
         self.name = name
 
     def contains(self, x):
